@@ -294,9 +294,11 @@ package nsqd
 //@ ghost kNotifyPersist bool
 //@ ghostgroup kNotifies, kNotifyNSQD, kNotifyValue, kNotifyPersist
 //@ func (n *NSQD) Notify(v interface{}, persist bool)
-//@   props C08
+//@   props C08 C16
 //@   nochan
 //@   requires n != nil
+//   (round 4, area C) never a nil *Topic / *Channel: lookupLoop calls Exiting() on what it receives from notifyChan
+//@   requires[announces-an-object] r4CNotifiable(v)
 //@   modifies kNotifies
 //@   onreturn kNotifies := kNotifies + 1
 //@   onreturn kNotifyNSQD := n
